@@ -10,12 +10,15 @@ LEVEL_TEXT = (
     "Sibling cross-check of the iteration and SQL converters: both are total over the same closed node sets, every arm "
     "reads every semantic field of its node, both use the one shared function-lookup protocol (operator module first, "
     "then the method of the first argument), the connective table (all/and_, any/or_, not/not_, empty cases) and the "
-    "operand roles of membership agree, and the SQL range translation uses start, stop-1 and start % step.  Numeric "
-    "agreement of the translated operators on all integers (e.g. floored vs truncated %, negative steps) is a statement "
-    "about values and is not decided; it is known to fail for negative range steps (DESIGN.md, O1)."
+    "operand roles of membership agree.  The SQL translation of membership in a range literal is decided exactly on a "
+    "bounded grid: the translating arm is interpreted from the source for every range with bounds -5..5 and steps -3..3 "
+    "(empty, descending and negative ones included) and the emitted expression is evaluated, with SQL's sign-of-dividend "
+    "`%`, on every item around the range and compared with Python's `in range` - this found and now guards defect D14.  "
+    "Constant folding is decided by evaluation on all small predicate trees.  Agreement of the arithmetic and comparison "
+    "operators themselves on all integers is not decided."
 )
-LEVEL_NOTE = "Trusted: python's operator module and sqlalchemy operators denote the same functions on NULL-free integers for the portable operator set."
-TECHNIQUE = "cross-implementation agreement rules over the closed expression hierarchy (ast paths, backward slices)"
+LEVEL_NOTE = "Trusted: python's operator module and sqlalchemy operators denote the same functions on NULL-free integers for the portable operator set; SQL `%` truncates towards zero (SQLite, PostgreSQL, MySQL).  The range decision is bounded (small bounds and steps), not a proof for all integers."
+TECHNIQUE = "cross-implementation agreement rules over the closed expression hierarchy (ast paths, backward slices) + finite-domain interpretation of the range-translation arm with symbolic SQL values"
 
 
 def check(model, tier):
